@@ -34,6 +34,17 @@ def prefix_hook_factory(prog, res):
         got = ob.take(ds, m.n + 3, with_items=True)
         res.count('prefix_items_requests')
         progengine.judge_items({'prog': sub}, m, got, res, lo, 'prefix')
+        # use keys(), len() and a key lookup of every intermediate stage as a
+        # user might: whatever a stage memoises must not leak into later stages
+        ks = ob.guarded(lambda: tuple(ds.keys()))
+        if not ob.is_err(ks):
+            if m.listable and m.labelstate != 'none' and list(ks) != m.labels:
+                res.violation('keys-differ', {'prog': sub}, {'keys': ks, 'want': m.labels,
+                                                            'where': 'prefix'},
+                              sig={'last_op': lo})
+            if ks:
+                ob.guarded(lambda: ds[ks[-1]])
+        ob.guarded(lambda: len(ds))
     return hook
 
 
